@@ -270,8 +270,12 @@ func (m *Monitor) NoteCtx(p interface{}) {
 
 type inCtx interface {
 	PeekMeta(key string) []byte
+	VisitMeta(f func(key, value []byte))
 	ServiceMethod() string
 }
+
+// DupMeta says whether the message of a token carries a repeated metadata key (two "Dup" pairs, announced by "Dn").
+func DupMeta(tok string) bool { return hash("dup:"+tok)%4 == 0 }
 
 // check verifies the self-consistency of what a handler received.
 func check(m *Monitor, kind, phase string, ctx inCtx, arg interface{}, wantMethod string) (tok string, ok bool) {
@@ -295,6 +299,19 @@ func check(m *Monitor, kind, phase string, ctx inCtx, arg interface{}, wantMetho
 	if want := TailMeta(tok); want != "-" {
 		if got := string(ctx.PeekMeta("Ztail")); got != want {
 			m.Report("handler-meta-foreign/"+phase, kind, fmt.Sprintf("token %q: last metadata pair Ztail=%q, sent %q", tok, got, want))
+			return tok, false
+		}
+	}
+	if string(ctx.PeekMeta("Dn")) == "2" {
+		// a repeated key arrives with both values, in the order they were added
+		var got []string
+		ctx.VisitMeta(func(k, v []byte) {
+			if string(k) == "Dup" {
+				got = append(got, string(v))
+			}
+		})
+		if len(got) != 2 || got[0] != MetaVal(tok, 3) || got[1] != MetaVal(tok, 4) {
+			m.Report("handler-meta-foreign/"+phase, kind, fmt.Sprintf("token %q: repeated metadata key Dup arrived as %q, sent [%q %q]", tok, got, MetaVal(tok, 3), MetaVal(tok, 4)))
 			return tok, false
 		}
 	}
@@ -439,13 +456,27 @@ func CThrift(ctx erpc.CallCtx, arg *wire.TStruct) (*wire.TStruct, *erpc.Status) 
 	return r.(*wire.TStruct), nil
 }
 
-func PBytes(ctx erpc.PushCtx, arg *[]byte) *erpc.Status  { return handlePush("bytes", PushRoute("bytes"), ctx, arg) }
-func PPlain(ctx erpc.PushCtx, arg *string) *erpc.Status  { return handlePush("plain", PushRoute("plain"), ctx, arg) }
-func PNstr(ctx erpc.PushCtx, arg *NStr) *erpc.Status { return handlePush("nstr", PushRoute("nstr"), ctx, arg) }
-func PJson(ctx erpc.PushCtx, arg *Arg) *erpc.Status      { return handlePush("json", PushRoute("json"), ctx, arg) }
-func PForm(ctx erpc.PushCtx, arg *Arg) *erpc.Status      { return handlePush("form", PushRoute("form"), ctx, arg) }
-func PXml(ctx erpc.PushCtx, arg *Arg) *erpc.Status       { return handlePush("xml", PushRoute("xml"), ctx, arg) }
-func PPb(ctx erpc.PushCtx, arg *pb.Payload) *erpc.Status { return handlePush("pb", PushRoute("pb"), ctx, arg) }
+func PBytes(ctx erpc.PushCtx, arg *[]byte) *erpc.Status {
+	return handlePush("bytes", PushRoute("bytes"), ctx, arg)
+}
+func PPlain(ctx erpc.PushCtx, arg *string) *erpc.Status {
+	return handlePush("plain", PushRoute("plain"), ctx, arg)
+}
+func PNstr(ctx erpc.PushCtx, arg *NStr) *erpc.Status {
+	return handlePush("nstr", PushRoute("nstr"), ctx, arg)
+}
+func PJson(ctx erpc.PushCtx, arg *Arg) *erpc.Status {
+	return handlePush("json", PushRoute("json"), ctx, arg)
+}
+func PForm(ctx erpc.PushCtx, arg *Arg) *erpc.Status {
+	return handlePush("form", PushRoute("form"), ctx, arg)
+}
+func PXml(ctx erpc.PushCtx, arg *Arg) *erpc.Status {
+	return handlePush("xml", PushRoute("xml"), ctx, arg)
+}
+func PPb(ctx erpc.PushCtx, arg *pb.Payload) *erpc.Status {
+	return handlePush("pb", PushRoute("pb"), ctx, arg)
+}
 func PThrift(ctx erpc.PushCtx, arg *wire.TStruct) *erpc.Status {
 	return handlePush("thrift", PushRoute("thrift"), ctx, arg)
 }
